@@ -90,7 +90,11 @@ WrapM == <<
 WrapU == <<
     <<"[t](", ")">>, <<"[t](<", ">)">>, <<"[t](", " \"T\")">>, <<"![a](", ")">>, <<"![a](<", ">)">>,
     <<"[t][r]\n\n[r]: ", "">>, <<"[r]\n\n[r]:\n", "\n\"T\"">>, <<"[r][]\n\n[r]: <", ">">>, <<"![a][r]\n\n[r]: ", "">>,
-    <<"<", ">">>, <<"a [t](", ") b ![i](", ")">>
+    <<"<", ">">>, <<"a [t](", ") b ![i](", ")">>,
+    \* the inline form where its label is ALSO a defined reference (a rejected destination falls back to the
+    \* shortcut reference), alone and inside enclosing brackets that pre-scan it silently
+    <<"[r](", ")\n\n[r]: /ok">>, <<"[see [r](", ") there]\n\n[r]: /ok">>, <<"[[r](", ")](http://a)\n\n[r]: /ok">>,
+    <<"![pic [r](", ")]\n\n[r]: /ok">>, <<"[a [r](", ") b][r]\n\n[r]: /ok">>, <<"*[x ![r](", ") y*]\n\n[r]: /ok">>
 >>
 (* C16: link text / destination / title alphabets for the reference-form = inline-form law *)
 RText == <<"", "t", "a *b*", "`c`", "![i](/s)", "x\\]y", "&amp;", "{u+00e9}", "a_b_", "<b>">>
@@ -144,6 +148,14 @@ Twins == <<
 >>
 (* L3: line shapes as a PRODUCT of container prefixes and leaves (the hand-picked L1 kept missing single shapes
    such as an indented fence inside a quote or a bare run of seven hashes); documents of one and two lines *)
+(* Sources that LOOK like the start of a block construct but stay one paragraph (a block rule tries them and gives *)
+(* up - whatever it did before giving up must not show), and one-line texts in which a link attempt looks ahead     *)
+(* over unmatched code-span / emphasis delimiters before it fails                                                   *)
+ParaPrefixes == <<"[a]: ", "[a]:", "[a]: /u x ", "[a]: <", "[a]: /u \"t", "[a] : ", "\\[a]: ", "a|b ", "|", "= ", "1986\\. ", "<x ",
+                  "*** a ", "--- a ", "`` ` ", "~~ ~ ", "#a ", "+a ", "1.a ">>
+Lookahead == <<"[`b`][`] c", "[*a*][*] c", "[`b`](` c", "[a][`] `c`", "![`b`][`] d", "[`b`][``] `` e", "[`b` [c](`",
+               "[x](<` `y`", "[x](/u \"` `y`", "[`b`][c] `", "*[`b`][`]* c", "[a]: [`b`][`] c", "[`b`][`]", "[[`b`]][`] c">>
+
 (* Container tails: a container block, then k lines that are empty INSIDE the container, then m blank lines   *)
 (* outside it, then a following block - where a container's map ends, and whose lines the empties are.       *)
 TailHeads   == <<"> - a", "> 1. a", "> - a\n> - b", "- > a", "> > a", "> # h", "> ```\n> x", ">     c", "> a", "- a\n  - b",
